@@ -105,6 +105,19 @@ def answer (l : String) : String :=
       let sa := tabA n (standGrid n (rd ta))
       showVec ((List.range X.length).map fun i => normSq n (rd sa) (rd2 Xa i))
     | _, _ => "bad"
+  | ["ip2d", t1, t2, x] =>
+    -- N x N matrix of the 2-D inner products `inner2` between the rows of X (each row an n1 x n2 surface, row-major)
+    match parseVec? t1, parseVec? t2, parseMat? x with
+    | some a, some b, some X =>
+      let n1 := a.length
+      let n2 := b.length
+      let N := X.length
+      let aa := a.toArray
+      let ba := b.toArray
+      let Xa := (X.map List.toArray).toArray
+      showMat (toMat N N fun i k =>
+        inner2 n1 n2 (rd aa) (rd ba) (fun p q => rd2 Xa i (p * n2 + q)) (fun p q => rd2 Xa k (p * n2 + q)))
+    | _, _, _ => "bad"
   | ["coefgram", t, phi, c] =>
     match parseVec? t, parseMat? phi, parseMat? c with
     | some ts, some Φ, some C =>
